@@ -26,14 +26,17 @@ PID = 'C16'
 RULE = ('per-file cases = (package: 2..9 wavelengths given ascending or descending, 1..3 apertures or none, 1..5 models, '
         'parameter table in permuted order, file names decoupled from model names) x runs (window ends below / on / '
         'between / above tabulated wavelengths or defaulted, chunk size 1..n_wav via max_ram); cube cases = cube package '
-        'x requested wavelengths (between, on, outside the table; never within 1e-9 of a midpoint). Non-trivial: at '
+        'x filter lists: wavelengths only (between, on, outside the table; never within 1e-9 of a midpoint) and mixed '
+        'lists of wavelengths and named broadband filters (files produced by convolve_model_dir on the same cube) in '
+        'every interleaving (directed) / random interleavings. Non-trivial: at '
         'least one run whose index range has >= 2 wavelengths and a chunk size < range length, or (cube) >= 2 '
         'tabulated wavelengths. Windows with no tabulated wavelength in the closed interval are outside the quantifier '
         'and not generated; windows with wavelengths only ON an end are compared against the sandwich only.')
 REQUIRED_BRANCHES = ['chunk_1', 'chunk_full', 'chunk_divides', 'chunk_not_divides', 'chunk_gt_range',
                      'window_default', 'window_one_sided', 'window_single_wavelength', 'end_on_node', 'end_between',
                      'nap_1', 'nap_multi', 'no_apertures', 'wav_given_asc', 'wav_given_desc', 'table_permuted',
-                     'sizes_agree', 'cube_between', 'cube_on_node', 'cube_outside', 'cube_aperture_dependent']
+                     'sizes_agree', 'cube_between', 'cube_on_node', 'cube_outside', 'cube_aperture_dependent',
+                     'cube_named_entry', 'cube_mixed_name_before_wavelength', 'cube_mixed_name_after_wavelength']
 ASSUMPTIONS = [
     'packages are stored in mJy; SED.read(unit_flux=mJy) computes (x*nu)/nu, so file contents are compared with the '
     'SED cells to 1e-15 relative (4 ulp); contents are compared bit-exactly between chunk sizes',
@@ -144,24 +147,74 @@ def directed_runs(pkg, rng):
     return runs
 
 
+def interleavings(n_wav_entries, n_names):
+    """every arrangement of n names among n wavelength entries, as a tuple of 'w' / 'n'"""
+    import itertools
+    total = n_wav_entries + n_names
+    out = []
+    for pos in itertools.combinations(range(total), n_names):
+        out.append(tuple('n' if i in pos else 'w' for i in range(total)))
+    return out
+
+
 def gen_cube_case(rng, directed=False):
+    """cube package + 1..2 broadband filters (convolved by the code itself) + filter lists: one list of wavelengths
+    only, then mixed lists of names and wavelengths (directed: every interleaving of 1 name / 2 wavelengths and of
+    2 names / 2 wavelengths)"""
     nw = rng.randint(2, 9)
     nm = rng.randint(1, 5)
     apdep = rng.random() < 0.4 or directed
     nap = rng.randint(2, 3) if apdep else rng.choice([0, 1, 2])
     pkg = gen_package(rng, nw=nw, nm=nm, nap=nap)
     w = sorted(pkg['wav'])
-    req = []
-    for _ in range(rng.randint(2, 5)):
-        i = rng.randrange(nw - 1)
-        frac = rng.choice([0.1, 0.25, 0.4, 0.45, 0.55, 0.6, 0.75, 0.9])
-        req.append(float('%.6g' % (w[i] + frac * (w[i + 1] - w[i]))))
-    req.append(w[rng.randrange(nw)])            # exactly on a node
-    req.append(w[0] * 0.5)                      # below the table
-    req.append(w[-1] * 3.)                      # above the table
-    rng.shuffle(req)
-    ap_pick = [rng.randrange(max(nap, 1)) for _ in req]
-    return dict(kind='cube', pkg=pkg, requested=req, aperture_dependent=bool(apdep), ap_pick=ap_pick)
+
+    def draw_wav():
+        kind = rng.choice(['between', 'between', 'between', 'node', 'below', 'above'])
+        if kind == 'between':
+            i = rng.randrange(nw - 1)
+            frac = rng.choice([0.1, 0.25, 0.4, 0.45, 0.55, 0.6, 0.75, 0.9])
+            return float('%.6g' % (w[i] + frac * (w[i + 1] - w[i])))
+        if kind == 'node':
+            return w[rng.randrange(nw)]
+        return w[0] * 0.5 if kind == 'below' else w[-1] * 3.
+
+    def entry_w(x=None):
+        return dict(wav=draw_wav() if x is None else x, ap=rng.randrange(max(nap, 1)))
+
+    # broadband filters strictly inside the tabulated range
+    broad = []
+    span = w[-1] - w[0]
+    for bi in range(2):
+        lo, hi = (0.08, 0.55) if bi == 0 else (0.35, 0.93)
+        fw = sorted({float('%.5g' % (w[0] + f * span)) for f in (lo, (lo + hi) / 2., hi)})
+        resp = [nice(rng, 0.2, 1., 2) for _ in fw]
+        if rng.random() < 0.5:
+            fw, resp = fw[::-1], resp[::-1]
+        broad.append(dict(name='BB%d' % (bi + 1), cw=float('%.5g' % (w[0] + (lo + hi) / 2. * span)), wav=fw, resp=resp))
+
+    def entry_n(i):
+        return dict(name=broad[i]['name'], ap=rng.randrange(max(nap, 1)))
+
+    lists = []
+    base = [entry_w() for _ in range(rng.randint(2, 4))]
+    base += [entry_w(w[rng.randrange(nw)]), entry_w(w[0] * 0.5), entry_w(w[-1] * 3.)]
+    rng.shuffle(base)
+    lists.append(base)
+    if directed:
+        patterns = interleavings(2, 1) + interleavings(2, 2)
+    else:
+        patterns = [rng.choice(interleavings(rng.randint(1, 3), rng.randint(1, 2))) for _ in range(rng.randint(1, 3))]
+    for pat in patterns:
+        k = 0
+        lst = []
+        for c in pat:
+            if c == 'w':
+                lst.append(entry_w())
+            else:
+                lst.append(entry_n(k % 2))
+                k += 1
+        lists.append(lst)
+    return dict(kind='cube', pkg=pkg, broad=broad, lists=lists, aperture_dependent=bool(apdep))
 
 
 def gen_cases(seed, tier):
@@ -459,7 +512,17 @@ def check_perfile(case, d, branches, with_model=True):
 
 # ----------------------------------------------------------------------------- cube packages
 
+def _legacy_lists(case):
+    """replay files written before mixed filter lists existed"""
+    if 'lists' in case:
+        return case['lists']
+    return [[dict(wav=x, ap=a) for x, a in zip(case['requested'], case['ap_pick'])]]
+
+
 def check_cube(case, d, branches, with_model=True):
+    from sedfitter.fit import Fitter
+    from sedfitter.convolve import convolve_model_dir
+    from sedfitter.convolved_fluxes import ConvolvedFluxes
     pkg = case['pkg']
     names = pkg['names']
     nm = len(names)
@@ -470,63 +533,96 @@ def check_cube(case, d, branches, with_model=True):
     unc = np.array(pkg['err'], float)
     apdep = case['aperture_dependent'] and nap > 1
     pk.write_cube_package(d, names, wav, val, unc, apertures_au=pkg['aps'], aperture_dependent=apdep)
-    req = case['requested']
+    lists = _legacy_lists(case)
+    prop, mod = [], []
+    # named filters: files in convolved/ produced by the code's own broadband convolution of the cube
+    conv = {}
+    if any('name' in e for lst in lists for e in lst):
+        filters = [pk.make_filter(f['name'], f['cw'], f['wav'], f['resp']) for f in case['broad']]
+        try:
+            with common.quiet():
+                convolve_model_dir(d, filters, memmap=False)
+                for f in case['broad']:
+                    cf = ConvolvedFluxes.read(os.path.join(d, 'convolved', f['name'] + '.fits'))
+                    conv[f['name']] = np.asarray(cf.flux.to(u.mJy).value, float).reshape(nm, -1)
+        except Exception as e:
+            # the broadband convolution is C07's business; without the files the mixed lists cannot be built
+            return [], ['harness: convolve_model_dir on the cube package raised %s: %s' % (type(e).__name__, e)], nw >= 2
     ext = pk.make_extinction([0.01, 1e4], [1., 1.])
     ap_cond = 1.
     if apdep:
-        # at 1 kpc aperture a of the table; never the smallest one (a rounding below it would be "too small")
-        picks = [max(1, a) for a in case['ap_pick']]
-        case = dict(case, ap_pick=picks)
-        ap_arcsec = [pkg['aps'][a] / 1000. for a in picks]
         aps = np.array(pkg['aps'], float)
         ap_cond = float(np.max(aps[1:] / (aps[1:] - aps[:-1])))
         branches.add('cube_aperture_dependent')
-    else:
-        ap_arcsec = [1.] * len(req)
-    prop, mod = [], []
-    try:
-        with common.quiet():
-            from sedfitter.fit import Fitter
-            fitter = Fitter([x * u.micron for x in req], np.array(ap_arcsec) * u.arcsec, d, extinction_law=ext,
-                            av_range=(0., 1.), distance_range=np.array([1., 1.]) * u.kpc, use_memmap=False)
-    except Exception as e:
-        return ['Fitter with wavelength filters %r raised %s: %s' % (req, type(e).__name__, e)], [], nw >= 2
-    got = np.asarray(fitter.models.fluxes.to(u.mJy).value, float)
-    got = got.reshape(nm, -1, len(req))[:, 0, :]
-    gnames = [str(n).strip() for n in fitter.models.names]
-    if gnames != list(names):
-        prop.append('cube models come back as %r, cube holds %r' % (gnames, names))
     wdesc = np.sort(wav)[::-1]
-    for i, x in enumerate(req):
-        dist = np.abs(wav - x)
-        k = int(np.argmin(dist))
-        srt = np.sort(dist)
-        if nw > 1 and (srt[1] - srt[0]) <= 1e-9 * x:
-            continue                                           # tie: not judged
-        if x in wav:
-            branches.add('cube_on_node')
-        elif x < wav.min() or x > wav.max():
-            branches.add('cube_outside')
-        else:
-            branches.add('cube_between')
-        a = case['ap_pick'][i] if apdep else 0
-        want = val[:, a, k]
-        # aperture-dependent: the fitter interpolates at (aperture/1000 arcsec) x 1000 pc, i.e. within an ulp of the
-        # tabulated aperture; rounding budget = slope x aperture x 1e-14 (exact comparison otherwise)
-        tol = (1e-14 * ap_cond * np.max(np.abs(val[:, :, k]), axis=1) + 1e-14 * np.abs(want)) if apdep else 0. * want
-        if not np.all(np.abs(got[:, i] - want) <= tol):
-            prop.append('requested %r micron: model fluxes %r; cube slice at the nearest tabulated wavelength %r '
-                        '(aperture %d) is %r' % (x, got[:, i].tolist(), float(wav[k]), a, want.tolist()))
-        if with_model:
-            t = common.driver().ask('nearest %s %s' % (rats(wdesc), rat(x)))
-            if t.tok() != 'ok':
-                mod.append('model nearest raised')
+    for lst in lists:
+        shown = [e.get('name', e.get('wav')) for e in lst]
+        # at 1 kpc (aperture / 1000) arcsec is aperture a of the table; never the smallest one (a rounding below it
+        # would be "too small")
+        picks = [max(1, e['ap']) if apdep else 0 for e in lst]
+        ap_arcsec = [pkg['aps'][a] / 1000. for a in picks] if apdep else [1.] * len(lst)
+        fl = [e['name'] if 'name' in e else e['wav'] * u.micron for e in lst]
+        kinds = ['n' if 'name' in e else 'w' for e in lst]
+        if 'n' in kinds and 'w' in kinds:
+            first_w, last_w = kinds.index('w'), len(kinds) - 1 - kinds[::-1].index('w')
+            if kinds.index('n') < last_w:
+                branches.add('cube_mixed_name_before_wavelength')
+            if len(kinds) - 1 - kinds[::-1].index('n') > first_w:
+                branches.add('cube_mixed_name_after_wavelength')
+        try:
+            with common.quiet():
+                fitter = Fitter(fl, np.array(ap_arcsec) * u.arcsec, d, extinction_law=ext, av_range=(0., 1.),
+                                distance_range=np.array([1., 1.]) * u.kpc, use_memmap=False)
+        except Exception as e:
+            prop.append('Fitter with filters %r raised %s: %s' % (shown, type(e).__name__, e))
+            continue
+        got = np.asarray(fitter.models.fluxes.to(u.mJy).value, float)
+        got = got.reshape(nm, -1, len(lst))[:, 0, :]
+        gnames = [str(n).strip() for n in fitter.models.names]
+        if gnames != list(names):
+            prop.append('filters %r: cube models come back as %r, cube holds %r' % (shown, gnames, names))
+        for i, e in enumerate(lst):
+            a = picks[i]
+            if 'name' in e:
+                branches.add('cube_named_entry')
+                cflux = conv[e['name']]
+                want = cflux[:, a]
+                tol = (1e-14 * ap_cond * np.max(np.abs(cflux), axis=1) + 1e-14 * np.abs(want)) if apdep else 0. * want
+                if not np.all(np.abs(got[:, i] - want) <= tol):
+                    prop.append('filters %r: entry %d (%s): model fluxes %r; convolved file holds %r'
+                                % (shown, i, e['name'], got[:, i].tolist(), want.tolist()))
                 continue
-            j = t.nat()
-            t.rat()
-            kk = int(np.nonzero(wav == wdesc[j])[0][0])
-            if not np.all(np.abs(got[:, i] - val[:, a, kk]) <= tol):
-                mod.append('requested %r: model picks λ=%r, implementation fluxes %r' % (x, float(wdesc[j]), got[:, i].tolist()))
+            x = e['wav']
+            dist = np.abs(wav - x)
+            k = int(np.argmin(dist))
+            srt = np.sort(dist)
+            if nw > 1 and (srt[1] - srt[0]) <= 1e-9 * x:
+                continue                                           # tie: not judged
+            if x in wav:
+                branches.add('cube_on_node')
+            elif x < wav.min() or x > wav.max():
+                branches.add('cube_outside')
+            else:
+                branches.add('cube_between')
+            want = val[:, a, k]
+            # aperture-dependent: the fitter interpolates at (aperture/1000 arcsec) x 1000 pc, i.e. within an ulp of the
+            # tabulated aperture; rounding budget = slope x aperture x 1e-14 (exact comparison otherwise)
+            tol = (1e-14 * ap_cond * np.max(np.abs(val[:, :, k]), axis=1) + 1e-14 * np.abs(want)) if apdep else 0. * want
+            if not np.all(np.abs(got[:, i] - want) <= tol):
+                prop.append('filters %r: entry %d, requested %r micron: model fluxes %r; cube slice at the nearest '
+                            'tabulated wavelength %r (aperture %d) is %r'
+                            % (shown, i, x, got[:, i].tolist(), float(wav[k]), a, want.tolist()))
+            if with_model:
+                t = common.driver().ask('nearest %s %s' % (rats(wdesc), rat(x)))
+                if t.tok() != 'ok':
+                    mod.append('model nearest raised')
+                    continue
+                j = t.nat()
+                t.rat()
+                kk = int(np.nonzero(wav == wdesc[j])[0][0])
+                if not np.all(np.abs(got[:, i] - val[:, a, kk]) <= tol):
+                    mod.append('filters %r: requested %r: model picks λ=%r, implementation fluxes %r'
+                               % (shown, x, float(wdesc[j]), got[:, i].tolist()))
     return prop, mod, nw >= 2
 
 
@@ -548,7 +644,8 @@ def run_case(case):
     pkg = case['pkg']
     sample = dict(kind=case['kind'], n_wav=len(pkg['wav']), n_models=len(pkg['names']),
                   n_ap=len(pkg['aps']) if pkg['aps'] else 0, direction=pkg['direction'],
-                  runs=(case.get('runs') or [])[:3], requested=case.get('requested'))
+                  runs=(case.get('runs') or [])[:3],
+                  filter_lists=[[e.get('name', e.get('wav')) for e in l] for l in (case.get('lists') or [])[:3]])
     key = common.canon_hash(case)
     if prop:
         return CaseResult(False, detail='property fails on the real code: ' + '; '.join(prop[:4]), branches=branches,
@@ -604,8 +701,19 @@ def shrink(case):
                     if fails(c):
                         return c
     else:
-        for i, x in enumerate(case['requested']):
-            c = dict(cur); c['requested'] = [x]; c['ap_pick'] = [case['ap_pick'][i]]
+        for lst in _legacy_lists(case):
+            c = dict(cur); c['lists'] = [lst]
             if fails(c):
-                return c
+                cur = c
+                # drop entries one at a time while it still fails
+                changed = True
+                while changed and len(cur['lists'][0]) > 1:
+                    changed = False
+                    for i in range(len(cur['lists'][0])):
+                        c2 = dict(cur); c2['lists'] = [cur['lists'][0][:i] + cur['lists'][0][i + 1:]]
+                        if fails(c2):
+                            cur = c2
+                            changed = True
+                            break
+                return cur
     return cur
